@@ -25,32 +25,86 @@ FILES = [
     'core/src/geometry/point.rs',
     'core/src/geometry/size.rs',
     'core/src/primitives/rectangle/mod.rs',
+    'core/src/primitives/rectangle/points.rs',
+    'core/src/pixelcolor/raw/load_store.rs',
     'src/geometry/mod.rs',
+    'src/geometry/angle.rs',
+    'src/geometry/real.rs',
     'src/primitives/primitive_style.rs',
+    'src/primitives/rectangle/mod.rs',
+    'src/primitives/rectangle/styled.rs',
     'src/primitives/circle/mod.rs',
+    'src/primitives/circle/points.rs',
+    'src/primitives/circle/styled.rs',
     'src/primitives/ellipse/mod.rs',
+    'src/primitives/ellipse/points.rs',
+    'src/primitives/ellipse/styled.rs',
+    'src/primitives/rounded_rectangle/mod.rs',
+    'src/primitives/rounded_rectangle/points.rs',
+    'src/primitives/rounded_rectangle/styled.rs',
     'src/primitives/rounded_rectangle/ellipse_quadrant.rs',
     'src/primitives/rounded_rectangle/corner_radii.rs',
+    'src/primitives/arc/mod.rs',
+    'src/primitives/arc/points.rs',
+    'src/primitives/arc/styled.rs',
+    'src/primitives/sector/mod.rs',
+    'src/primitives/sector/points.rs',
+    'src/primitives/sector/styled.rs',
     'src/primitives/line/mod.rs',
     'src/primitives/line/points.rs',
+    'src/primitives/line/styled.rs',
     'src/primitives/line/bresenham.rs',
     'src/primitives/line/thick_points.rs',
     'src/primitives/line/intersection_params.rs',
+    'src/primitives/polyline/mod.rs',
+    'src/primitives/polyline/points.rs',
+    'src/primitives/polyline/scanline_iterator.rs',
+    'src/primitives/polyline/styled.rs',
+    'src/primitives/common/mod.rs',
     'src/primitives/common/linear_equation.rs',
     'src/primitives/common/line_join.rs',
+    'src/primitives/common/scanline.rs',
+    'src/primitives/common/styled_scanline.rs',
+    'src/primitives/common/distance_iterator.rs',
+    'src/primitives/common/plane_sector.rs',
+    'src/primitives/common/thick_segment.rs',
+    'src/primitives/common/thick_segment_iter.rs',
+    'src/primitives/common/closed_thick_segment_iter.rs',
     'src/primitives/triangle/mod.rs',
+    'src/primitives/triangle/points.rs',
+    'src/primitives/triangle/scanline_intersections.rs',
+    'src/primitives/triangle/scanline_iterator.rs',
+    'src/primitives/triangle/styled.rs',
+    'src/primitives/styled.rs',
+    'src/mono_font/mod.rs',
+    'src/mono_font/mapping.rs',
+    'src/mono_font/draw_target.rs',
     'src/mono_font/mono_text_style.rs',
     'src/text/mod.rs',
     'src/text/text.rs',
+    'src/image/mod.rs',
+    'src/image/sub_image.rs',
     'src/image/image_raw.rs',
     'src/iterator/contiguous.rs',
+    'src/iterator/pixel.rs',
+    'src/iterator/raw.rs',
+    'src/iterator/mod.rs',
+    'src/draw_target/mod.rs',
+    'src/draw_target/clipped.rs',
+    'src/draw_target/cropped.rs',
+    'src/draw_target/translated.rs',
+    'src/draw_target/color_converted.rs',
+    'src/framebuffer.rs',
 ]
 
 METHODS = {'pow', 'abs', 'unsigned_abs', 'abs_diff', 'div_euclid', 'rem_euclid', 'saturating_as', 'saturating_cast',
            'isqrt', 'neg', 'unwrap', 'expect', 'unwrap_unchecked', 'get_unchecked', 'get_unchecked_mut',
            'add', 'sub', 'mul', 'div', 'rem', 'shl', 'shr', 'sum', 'product', 'next_power_of_two',
            'wrapping_as', 'checked_as', 'try_into', 'try_from', 'split_at', 'split_at_mut', 'copy_from_slice',
-           'step_by', 'chunks', 'chunks_exact', 'swap'}
+           'step_by', 'chunks', 'chunks_exact', 'swap',
+           # calls of the crate's own arithmetic helpers: a new call of one of them is a new site
+           'length_squared', 'dot_product', 'determinant', 'rotate_90', 'component_mul', 'component_div', 'offset',
+           'resized', 'resized_width', 'resized_height', 'to_absolute', 'sub_size', 'div_u32', 'nth', 'skip', 'take'}
 PREFIXES = ('saturating_', 'checked_', 'wrapping_', 'overflowing_', 'unchecked_', 'strict_')
 MACROS = {'panic', 'unreachable', 'unimplemented', 'todo', 'assert', 'assert_eq', 'assert_ne',
           'debug_assert', 'debug_assert_eq', 'debug_assert_ne'}
@@ -71,7 +125,7 @@ TOKEN = re.compile(r'''
   | (?P<rstr>b?r(?P<h>\#*)".*?"(?P=h))
   | (?P<float>\d[\d_]*\.\d[\d_]*(?:[eE][+-]?\d+)?(?:_?f32|_?f64)?|\d[\d_]*(?:[eE][+-]?\d+)(?:_?f32|_?f64)?|\d[\d_]*_?f(?:32|64))
   | (?P<int>0x[0-9a-fA-F_]+(?:[iu](?:8|16|32|64|128|size))?|0b[01_]+(?:[iu](?:8|16|32|64|128|size))?|0o[0-7_]+(?:[iu](?:8|16|32|64|128|size))?|\d[\d_]*(?:[iu](?:8|16|32|64|128|size))?)
-  | (?P<ident>r\#[A-Za-z_][A-Za-z0-9_]*|[A-Za-z_][A-Za-z0-9_]*)
+  | (?P<ident>r\#[A-Za-z_][A-Za-z0-9_]*|\$?[A-Za-z_][A-Za-z0-9_]*)
   | (?P<op><<=|>>=|\.\.=|\.\.\.|::|->|=>|==|!=|<=|>=|&&|\|\||\+=|-=|\*=|/=|%=|\^=|&=|\|=|<<|>>|\.\.|[-+*/%^!&|=<>@.,;:\#$?~(){}\[\]])
 ''', re.X | re.S)
 
@@ -190,9 +244,11 @@ def skeleton(toks, path):
                 elif t == '*' and prefix:
                     pass                      # dereference
                 elif prefix and t not in ('-', '*'):
-                    die('%s:%d: operator %s in prefix position' % (path, line, t))
+                    sk.append('prefix' + BINOPS[t])   # e.g. `+` of a trait bound after `>`: kept, never skipped
                 else:
                     sk.append(BINOPS[t])
+            elif t in ('<', '>', '<=', '>=', '==', '!=') and (prevkind == 'int' or (k + 1 < n and toks[k + 1][0] == 'int')):
+                sk.append('cmp:' + t)
             elif t == '[' and ((prevkind == 'ident' and prev not in PREFIX_CTX) or prev in (')', ']', '?')):
                 sk.append('index')
             elif t == '(' and not ((prevkind == 'ident' and prev not in PREFIX_CTX) or prev in (')', ']', '?', '>', '!')):
@@ -207,7 +263,9 @@ def skeleton(toks, path):
                 # cast: target type = following path tokens up to a non-path token
                 j = k + 1
                 ty = []
-                while j < n and (toks[j][0] == 'ident' or toks[j][1] == '::'):
+                while j < n and (toks[j][0] == 'ident' or toks[j][1] in ('::', '*', '&')):
+                    if toks[j][1] in ('*', '&') and ty and ty[-1] not in ('*', '&'):
+                        break                                  # `x as u32 * y`: the `*` is a product
                     ty.append(toks[j][1]); j += 1
                 if not ty:
                     die('%s:%d: `as` without a type' % (path, line))
@@ -388,12 +446,11 @@ def functions(path):
 
 def no_std_scan():
     """supporting evidence for allocation freedom: #![no_std] and no alloc / std paths outside tests"""
-    facts = []
+    attrs = []
+    nfiles = 0
     for lib in ('src/lib.rs', 'core/src/lib.rs'):
         txt = strip_comments(open(os.path.join(REPO, lib)).read(), lib)
-        if not re.search(r'#!\[no_std\]|#!\[cfg_attr\(not\(test\),\s*no_std\)\]', txt):
-            die('%s: #![no_std] not found' % lib)
-        facts.append(lib)
+        attrs.append((lib, bool(re.search(r'#!\[no_std\]|#!\[cfg_attr\(not\(test\),\s*no_std\)\]', txt))))
     bad = []
     for root in ('src', 'core/src'):
         for d, _, fs in os.walk(os.path.join(REPO, root)):
@@ -405,6 +462,7 @@ def no_std_scan():
                 if rel.startswith('src/mock_display'):
                     continue      # test helper (C20), documented to need no allocation but not part of rendering
                 toks = tokenize(strip_comments(open(p).read(), rel), rel)
+                nfiles += 1
                 # drop #[cfg(test)] items
                 i = 0
                 depth_skip = None
@@ -430,9 +488,7 @@ def no_std_scan():
                     if toks[i][0] == 'ident' and t == 'extern' and toks[i + 1][1] == 'crate' and toks[i + 2][1] in ('alloc', 'std'):
                         bad.append('%s:%d extern crate %s' % (rel, toks[i][2], toks[i + 2][1]))
                     i += 1
-    if bad:
-        die('alloc/std path outside test code: ' + ', '.join(bad[:8]))
-    return facts
+    return attrs, nfiles, bad
 
 
 def coq_str(s):
@@ -450,7 +506,7 @@ def main():
             if sk or '--all' in sys.argv:
                 print('%s:%d\t%s\t%s' % (f, line, q, ' '.join(sk)))
         return
-    no_std_scan()
+    attrs, nfiles, bad = no_std_scan()
     keys = set()
     for f, q, _, _ in rows:
         if (f, q) in keys:
@@ -460,8 +516,12 @@ def main():
              '   One row per non-test function of the C08 files: (file, function, skeleton of its panic sites). *)',
              'From Coq Require Import String List.', 'Import ListNotations.', 'Open Scope string_scope.', '',
              'Definition arith_files : list string := [' + '; '.join(coq_str(f) for f in FILES) + '].', '',
-             '(* #![no_std] present and no alloc::/std:: path outside test code (checked by the translator) *)',
-             'Definition no_std_scan_passed : bool := true.', '',
+             '(* facts of the scan for heap allocation (supporting evidence only): the #![no_std] attribute of both crates,',
+             '   the number of .rs files of src/ and core/src/ scanned (src/mock_display excluded: test helper), and every',
+             '   `alloc::` / `std::` path or `extern crate alloc|std` found outside #[cfg(test)] items *)',
+             'Definition no_std_attr : list (string * bool) := [' + '; '.join('(%s, %s)' % (coq_str(f), 'true' if b else 'false') for f, b in attrs) + '].',
+             'Definition scanned_files : nat := %d.' % nfiles,
+             'Definition alloc_std_paths : list string := [' + '; '.join(coq_str(b) for b in bad) + '].', '',
              'Definition arith_sites : list (string * string * string) := [']
     body = []
     for f, q, _, sk in rows:
